@@ -323,20 +323,17 @@ def rows_of(value, m):
     return (value if isinstance(value, list) else [value]), isinstance(value, list) and len(value) == m
 
 
-REJECT_CLASSES = {
-    "fit_len_mismatch": ("ValueError",), "pfit_len_mismatch": ("ValueError",), "fit_bad_type": ("TypeError",),
-    "pfit_rewards_type": ("TypeError",), "fit_nan_reward": ("TypeError",), "pfit_nan_reward": ("TypeError",),
-    "pfit_inf_reward": ("TypeError",), "pfit_none_reward": ("TypeError",),
-    "fit_contexts_superfluous": ("TypeError",), "pfit_contexts_superfluous": ("TypeError",),
-    "ts_nonbinary": ("ValueError",), "add_duplicate": ("ValueError",), "add_none": ("ValueError",),
-    "add_nan": ("ValueError",), "add_inf": ("ValueError",), "add_binarizer_non_ts": ("ValueError",),
-    "add_binarizer_not_callable": ("TypeError", "ValueError"),
-    "remove_unknown": ("ValueError",), "remove_none": ("ValueError",), "ws_not_dict": ("TypeError",),
-    "ws_quantile_type": ("TypeError",), "ws_quantile_range": ("ValueError",), "ws_arms_mismatch": ("ValueError",),
+_BOTH = ("TypeError", "ValueError")
+REJECT_CLASSES = {kind: _BOTH for kind in (
+    "fit_len_mismatch", "pfit_len_mismatch", "fit_bad_type", "pfit_rewards_type", "fit_nan_reward", "pfit_nan_reward",
+    "pfit_inf_reward", "pfit_none_reward", "fit_contexts_superfluous", "pfit_contexts_superfluous", "ts_nonbinary",
+    "add_duplicate", "add_none", "add_nan", "add_inf", "add_binarizer_non_ts", "add_binarizer_not_callable",
+    "remove_unknown", "remove_none", "ws_not_dict", "ws_quantile_type", "ws_quantile_range", "ws_arms_mismatch")}
+REJECT_CLASSES.update({
     "ws_all_zero_features": ("IndexError", "ValueError"), "predict_unfitted": ("Exception",),
-    "predict_exp_unfitted": ("Exception",), "predict_bad_context_type": ("TypeError",),
-    "predict_1d_context": ("TypeError",),
-}
+    "predict_exp_unfitted": ("Exception",), "predict_bad_context_type": ("TypeError", "ValueError", "Exception"),
+    "predict_1d_context": ("TypeError", "ValueError", "Exception"),
+})
 
 # observation-only attributes: Thompson Sampling caches its last draw in arm_to_expectation
 def skip_for(lp):
@@ -460,7 +457,7 @@ class Replay:
         if outcome == "ok":
             self.report("reject.noraise", "invalid call %s was accepted" % kind, skey, label)
             return
-        if "Exception" not in allowed and outcome not in allowed:
+        if outcome not in allowed:
             self.report("reject.class", "invalid call %s raised %s (%s), documented %s" % (kind, outcome, value, allowed),
                         skey, label)
         after = snapshot(obj, rng=True, skip=skip_for(self.b.lp))
